@@ -809,10 +809,13 @@ func (p Prop) Run(r *core.Run) *core.Violation {
 	if r.Tier == "thorough" {
 		maxSteps = 45
 	}
-	n := 3 + r.T.Intn(maxSteps)
 	hh := fnv.New64a()
 	var hist []string
-	for i := 0; i < n; i++ {
+	for i := 0; i < maxSteps+3; i++ {
+		// "one more step?" before every step (0 = stop): shrink-friendly history length
+		if i > 2 && r.T.Intn(16) == 0 {
+			break
+		}
 		desc, v := h.step(r.T)
 		if v != nil {
 			v.Msg = fmt.Sprintf("step %d: %s", i+1, v.Msg)
